@@ -389,11 +389,22 @@ func genTokens(r *gen.Rand, lone bool) []tok {
 // and the text at most 16 values, so that the creation-order search of the
 // key-order deviation model stays small.
 func genTokensSmall(r *gen.Rand) []tok {
-	g := &textGen{r: r, budget: 16, maxKeys: 3}
-	g.ws()
-	g.value(r.Range(1, 4))
-	g.ws()
-	return g.ts
+	for try := 0; ; try++ {
+		g := &textGen{r: r, budget: 16, maxKeys: 3}
+		g.ws()
+		g.value(r.Range(1, 4))
+		g.ws()
+		// mostly containers at the top: a reviver over a lone primitive says little
+		for _, t := range g.ts {
+			if t.kind == 'w' {
+				continue
+			}
+			if t.kind == '[' || t.kind == '{' || try >= 3 {
+				return g.ts
+			}
+			break
+		}
+	}
 }
 
 // --------------------------------------------------------------- mutations
